@@ -34,7 +34,7 @@ NewTx == [q |-> -1, s |-> -1, qc |-> 0, sc |-> 0, tc |-> 0, c100 |-> 0, c100line
           qcompleting |-> FALSE, scompleting |-> FALSE, qmark |-> 0, smark |-> 0, qdata |-> FALSE, sdata |-> FALSE,
           sites |-> {}, destroyed |-> FALSE, connect |-> FALSE, resseen |-> FALSE, qstartpos |-> 0, sstartpos |-> 0]
 
-ObsInit == [cfg |-> [autod |-> FALSE, maxtx |-> 0, hard |-> 18000, mode |-> "proto", wf |-> FALSE, ids |-> FALSE, pumpdir |-> "none", pumpstart |-> 0, n |-> -1, cls |-> "", failat |-> -1],
+ObsInit == [cfg |-> [autod |-> FALSE, maxtx |-> 0, hard |-> 18000, mode |-> "proto", wf |-> FALSE, ids |-> FALSE, pumpdir |-> "none", pumpstart |-> 0, role |-> "", idx |-> 0, fam |-> "", n |-> -1, cls |-> "", failat |-> -1],
             run |-> "", txs |-> <<>>, viol |-> {}, gsites |-> {}, pos |-> 0,
             call |-> [d |-> "none", k |-> "", len |-> 0, off |-> 0], cbs |-> 0, opened |-> FALSE,
             lastrc |-> [req |-> "none", res |-> "none"], counter |-> [req |-> 0, res |-> 0], counters_known |-> TRUE,
